@@ -160,6 +160,12 @@ type pgWorld struct {
 	cs   *ClientSession
 	ss   *ServerSession
 	srvT *recTransport
+	// the client's own registry (roots): listed by a SECOND server over a legacy session of the same
+	// client (server-to-client roots/list does not exist in the latest protocol)
+	c     *Client
+	cs2   *ClientSession
+	ss2   *ServerSession
+	cliT2 *recTransport
 }
 
 func newPgWorld(pageSize int) (*pgWorld, error) {
@@ -173,7 +179,8 @@ func newPgWorld(pageSize int) (*pgWorld, error) {
 	if err != nil {
 		return nil, err
 	}
-	cs, err := NewClient(&Implementation{Name: "c", Version: "1"}, nil).Connect(ctx, t2, nil)
+	w.c = NewClient(&Implementation{Name: "c", Version: "1"}, nil)
+	cs, err := w.c.Connect(ctx, t2, nil)
 	if err != nil {
 		return nil, err
 	}
@@ -181,9 +188,35 @@ func newPgWorld(pageSize int) (*pgWorld, error) {
 	return w, nil
 }
 
+// second: the second session of the client, to a server that asks for the roots (connected on first use:
+// roots added and removed BEFORE the session exists are part of the histories)
+func (w *pgWorld) second() error {
+	if w.ss2 != nil {
+		return nil
+	}
+	ctx := context.Background()
+	s2 := NewServer(&Implementation{Name: "s2", Version: "1"}, &ServerOptions{Logger: slog.New(slog.DiscardHandler)})
+	t1, t2 := NewInMemoryTransports()
+	ss2, err := s2.Connect(ctx, t1, nil)
+	if err != nil {
+		return err
+	}
+	w.cliT2 = &recTransport{Transport: t2}
+	cs2, err := w.c.Connect(ctx, w.cliT2, &ClientSessionOptions{ProtocolVersion: protocolVersion20251125})
+	if err != nil {
+		return err
+	}
+	w.cs2, w.ss2 = cs2, ss2
+	return nil
+}
+
 func (w *pgWorld) close() {
 	w.cs.Close()
 	w.ss.Wait()
+	if w.cs2 != nil {
+		w.cs2.Close()
+		w.ss2.Wait()
+	}
 }
 
 var pgMember = map[string][2]string{ // method -> list member, uid member of an item
@@ -191,6 +224,7 @@ var pgMember = map[string][2]string{ // method -> list member, uid member of an 
 	"prompts/list":             {"prompts", "name"},
 	"resources/list":           {"resources", "uri"},
 	"resources/templates/list": {"resourceTemplates", "uriTemplate"},
+	"roots/list":               {"roots", "uri"},
 }
 
 func (w *pgWorld) add(method string, uids []string) string {
@@ -212,6 +246,8 @@ func (w *pgWorld) add(method string, uids []string) string {
 			w.s.AddResourceTemplate(&ResourceTemplate{Name: "t", URITemplate: u}, func(context.Context, *ReadResourceRequest) (*ReadResourceResult, error) {
 				return &ReadResourceResult{Contents: []*ResourceContents{}}, nil
 			})
+		case "roots/list":
+			w.c.AddRoots(&Root{URI: u})
 		default:
 			return "bad-op"
 		}
@@ -229,6 +265,8 @@ func (w *pgWorld) remove(method string, uids []string) string {
 		w.s.RemoveResources(uids...)
 	case "resources/templates/list":
 		w.s.RemoveResourceTemplates(uids...)
+	case "roots/list":
+		w.c.RemoveRoots(uids...)
 	default:
 		return "bad-op"
 	}
@@ -240,7 +278,17 @@ func (w *pgWorld) remove(method string, uids []string) string {
 func (w *pgWorld) list(method, cursor string) string {
 	ctx, cancel := context.WithTimeout(context.Background(), 10*time.Second)
 	defer cancel()
-	before := len(w.srvT.sent)
+	rec := w.srvT
+	if method == "roots/list" {
+		// the registry is the client's; the result is what the CLIENT writes
+		if err := w.second(); err != nil {
+			return "setup-error"
+		}
+		rec = w.cliT2
+	}
+	rec.mu.Lock()
+	before := len(rec.sent)
+	rec.mu.Unlock()
 	switch method {
 	case "tools/list":
 		w.cs.ListTools(ctx, &ListToolsParams{Cursor: cursor})
@@ -250,19 +298,24 @@ func (w *pgWorld) list(method, cursor string) string {
 		w.cs.ListResources(ctx, &ListResourcesParams{Cursor: cursor})
 	case "resources/templates/list":
 		w.cs.ListResourceTemplates(ctx, &ListResourceTemplatesParams{Cursor: cursor})
+	case "roots/list":
+		if cursor != "" {
+			return "bad-op"
+		}
+		w.ss2.ListRoots(ctx, nil)
 	default:
 		return "bad-op"
 	}
 	if ctx.Err() != nil {
 		return "hang"
 	}
-	w.srvT.mu.Lock()
-	n := len(w.srvT.sent)
-	w.srvT.mu.Unlock()
+	rec.mu.Lock()
+	n := len(rec.sent)
+	rec.mu.Unlock()
 	if n == before {
 		return "no-response"
 	}
-	v, err := parseJSON(w.srvT.last())
+	v, err := parseJSON(rec.last())
 	if err != nil {
 		return "unparsable"
 	}
@@ -676,8 +729,57 @@ func pgUID(method string, name string) string {
 		return "file:///" + name
 	case "resources/templates/list":
 		return "file:///t/" + name + "{?q}"
+	case "roots/list":
+		return "file:///roots/" + name
 	}
 	return name
+}
+
+// histories: a registry that is listed whole (the client's roots) through every kind of add / remove
+// history of up to n items: never touched; filled; emptied one by one (the LAST item removed), all at
+// once, by a removal that names absent items too; refilled; each state listed twice (a cached answer).
+func (g *pgGen) histories(method string, n int, connectFirst bool) {
+	step := g.step
+	var keys []string
+	for i := 0; i < n; i++ {
+		keys = append(keys, pgUID(method, pgNames[(i*5+n)%len(pgNames)]))
+	}
+	list := func(how string) {
+		step("r.pg.list "+method+" -", pgListTags(method, how)...)
+	}
+	step("r.pg.new 1")
+	if connectFirst {
+		list("untouched")
+	}
+	step("r.pg.rm "+method+" s"+hxs(pgUID(method, "absent")), "page:rm")
+	if connectFirst {
+		list("untouched")
+	}
+	if n == 0 {
+		list("untouched")
+		return
+	}
+	step("r.pg.add "+method+" "+sTok(keys), "page:add")
+	if connectFirst {
+		list("filled")
+	}
+	for i, k := range keys { // one by one, down to the last
+		step("r.pg.rm "+method+" s"+hxs(k), "page:rm")
+		if connectFirst || i == len(keys)-1 {
+			how := "shrunk"
+			if i == len(keys)-1 {
+				how = "emptied"
+			}
+			list(how)
+			list(how)
+		}
+	}
+	step("r.pg.add "+method+" "+sTok(keys), "page:add")
+	list("filled")
+	step("r.pg.rm "+method+" "+sTok(append([]string{pgUID(method, "absent")}, keys...)), "page:rm")
+	list("emptied")
+	step("r.pg.add "+method+" "+sTok(keys[:1]), "page:add")
+	list("filled")
 }
 
 var pgNames = []string{"A", "B9", "Z", "_x", "a", "a-", "a.b", "aa", "ab", "b", "k01", "k02", "k10", "k2", "m", "zz"}
@@ -818,6 +920,7 @@ func (g *pgGen) random() {
 	}
 	last := map[string]string{} // method -> uid of the last issued cursor
 	has := map[string]bool{}
+	pgMethods := append(append([]string{}, pgMethods...), "roots/list") // the client's registry too (listed whole)
 	for _, m := range pgMethods {
 		keys[m] = map[string]bool{}
 		if r.Intn(4) > 0 {
@@ -866,6 +969,7 @@ func (g *pgGen) random() {
 		default:
 			cur, how := "-", "none"
 			switch c := r.Intn(10); {
+			case m == "roots/list":
 			case c < 5 && has[m]:
 				cur, how = "c"+hxs(last[m]), "issued"
 			case c < 8:
